@@ -408,7 +408,7 @@ func c17LoadCase(c *CaseCtx) *CaseResult {
 			}
 		}()
 	case 1: // single-constraint corruption: must fail
-		kinds := []string{"concurrency -1", "concurrency -7", "queue_limit -1", "start_delay -1s", "delay with queue_limit 0", "dependency on missing task", "dependency on another pipeline's task", "unknown strategy", "duplicate name in another file", "unparsable yaml", "dependency with empty name", "dependency that is a YAML null", "start_delay -1s with queue_limit", "dependency on missing task beside valid ones", "concurrency -1 in a later pipeline of the file", "verbatim duplicate in another file"}
+		kinds := []string{"concurrency -1", "concurrency -7", "queue_limit -1", "start_delay -1s", "delay with queue_limit 0", "dependency on missing task", "dependency on another pipeline's task", "unknown strategy", "duplicate name in another file", "unparsable yaml", "dependency with empty name", "dependency that is a YAML null", "start_delay -1s with queue_limit", "dependency on missing task beside valid ones", "concurrency -1 in a later pipeline of the file", "verbatim duplicate in another file", "queue_strategy integer 2", "queue_strategy integer -1", "queue_strategy integer 1 quoted"}
 		kind := kinds[(c.Idx/3)%len(kinds)]
 		target := r.Intn(nFiles)
 		var victim string
@@ -474,6 +474,12 @@ func c17LoadCase(c *CaseCtx) *CaseResult {
 				}
 			case "unknown strategy":
 				pm["queue_strategy"] = "newest"
+			case "queue_strategy integer 2":
+				pm["queue_strategy"] = 2 // an unquoted YAML integer that names no strategy
+			case "queue_strategy integer -1":
+				pm["queue_strategy"] = -1
+			case "queue_strategy integer 1 quoted":
+				pm["queue_strategy"] = "1"
 			case "dependency with empty name":
 				for _, t := range pm["tasks"].(map[string]interface{}) {
 					t.(map[string]interface{})["depends_on"] = []string{""}
@@ -778,7 +784,7 @@ func mutateAll(r *rand.Rand, base definition.PipelinesDef) ([]c17mut, string) {
 func init() {
 	register(&Check{
 		ID: "C17", Level: "exploration",
-		Rule:        "three case kinds over generated definition sets (1-4 files pipelines.yml / pipelines.yaml in nested directories incl. non-ASCII names, 1-3 pipelines each over ALL fields, emitted through yaml.v2 from a generic tree: strategy as string, durations as strings, zero values sometimes explicit sometimes omitted): (a) valid set: LoadRecursively must succeed, satisfy an independent re-statement of every listed constraint, equal the generating definitions after defaults (SourcePath = file), and give the same result when the same files are created in another order; (b) one constraint broken in one place (16 corruption kinds incl. blank and null dependencies, duplicate name in a second file (different and verbatim content) and unparsable YAML): load must fail; (c) Equals: reflexive on a deep copy, symmetric, and false for every single-field edit produced by a REFLECTION-driven mutator over PipelinesDef -> PipelineDef -> TaskDef (int, *int incl. nil<->0, Duration, bool, string, []string append/drop/edit/swap, map[string]string add key with empty value / rename key whose value is empty / change value / remove key, map of structs add / remove / rename entry); a field of a kind the mutator cannot perturb makes the run inconclusive (exit 2), so a new field cannot be silently skipped. A situation is the corruption kind resp. (field, operator)",
+		Rule:        "three case kinds over generated definition sets (1-4 files pipelines.yml / pipelines.yaml in nested directories incl. non-ASCII names, 1-3 pipelines each over ALL fields, emitted through yaml.v2 from a generic tree: strategy as string, durations as strings, zero values sometimes explicit sometimes omitted): (a) valid set: LoadRecursively must succeed, satisfy an independent re-statement of every listed constraint, equal the generating definitions after defaults (SourcePath = file), and give the same result when the same files are created in another order; (b) one constraint broken in one place (19 corruption kinds incl. integer queue strategies, blank and null dependencies, duplicate name in a second file (different and verbatim content) and unparsable YAML): load must fail; (c) Equals: reflexive on a deep copy, symmetric, and false for every single-field edit produced by a REFLECTION-driven mutator over PipelinesDef -> PipelineDef -> TaskDef (int, *int incl. nil<->0, Duration, bool, string, []string append/drop/edit/swap, map[string]string add key with empty value / rename key whose value is empty / change value / remove key, map of structs add / remove / rename entry); a field of a kind the mutator cannot perturb makes the run inconclusive (exit 2), so a new field cannot be silently skipped. A situation is the corruption kind resp. (field, operator)",
 		Assumptions: []string{"duplicate keys inside one YAML file are merged by yaml.v2 (last wins) and are not generated"},
 		Cases:       func(t string) int { return tierN(t, 900, 24000) },
 		RunCase:     c17LoadCase,
